@@ -65,6 +65,9 @@ func c05Gen(tier string, seed int64) []fw.Case {
 		cs = append(cs, fw.Mk(fmt.Sprintf("inbound-publish-%d", i), c05Params{Mode: "inbound", Part: i, Of: 4, N: nrand}))
 	}
 	cs = append(cs, fw.Mk("rejection", c05Params{Mode: "reject", N: nrand}))
+	for i := 0; i < 4; i++ {
+		cs = append(cs, fw.Mk(fmt.Sprintf("retransmissions-wellformed-%d", i), c05Params{Mode: "hygiene", N: nrand / 2, Part: i}))
+	}
 	return cs
 }
 
@@ -178,6 +181,39 @@ func c05Run(c fw.Case, env *fw.Env) fw.Result {
 		return c05Inbound(p, rng, r, fail)
 	case "reject":
 		return c05Reject(p, rng, r, fail)
+	case "hygiene":
+		// every packet a reconnecting client writes in faulty runs (retransmissions with DUP, PUBREL, PUBACK/PUBREC/
+		// PUBCOMP for inbound traffic, re-subscriptions, DISCONNECT) decodes strictly; the stream can always be framed
+		wl := []string{"mixed", "preset", "in1", "subs5", "q2mix", "outage"}
+		for i := 0; i < p.N; i++ {
+			rp := retryParams{W: wl[(i+p.Part)%len(wl)], Cfg: scen.BrokerCfg{Method: []string{"A", "B"}[i%2], Session: []string{"keep", "lose"}[(i/2)%2], Echo: i%3 == 0}, Always: i%5 == 0, Chunk: []int{0, 1, 3}[i%3], Mode: "random", N: 1}
+			for _, sc := range rp.scenarios(rng) {
+				sc := sc
+				run := scen.Exec(&sc)
+				r.Evals++
+				if run.Inconcl != "" {
+					r.Counters["inconclusive_runs"]++
+					continue
+				}
+				a := scen.Analyse(run)
+				for _, f := range a.Hygiene() {
+					if f.Sig == "protocol-error" {
+						continue // C09's business
+					}
+					return fail("malformed-packet", "%s: %s\nworkload=%s faults=%v", f.Sig, f.Detail, rp.W, sc.Faults)
+				}
+				n := 0
+				for _, e := range a.Ev {
+					if e.Kind == memnet.KWrite {
+						n++
+					}
+				}
+				r.Counters["packets_decoded_in_faulty_runs"] += n
+				r.NT = append(r.NT, fw.Hash("hyg", rp.W, a.FaultShape(), i, p.Part))
+			}
+		}
+		r.Sample = map[string]interface{}{"mode": "hygiene", "workloads": wl, "runs": p.N}
+		return r
 	}
 	return r
 }
@@ -658,7 +694,7 @@ func init() {
 		Rule: "length codec: library remainingLength(n) vs independent minimal encoder and decoder for every n in 0..268435455 (thorough: exhaustive in 64 ranges; quick: +-300 around every boundary and 2^20 seeded samples), readPacket on reference-encoded headers at every boundary; " +
 			"outbound: all combinations of will(q0-2 x retain x empty payload), credentials, keep-alive, clean, protocol level, client id; PUBLISH with remaining length on both sides of 0/127/128/16383/16384/2097151/2097152, all QoS/retain, preset/auto ids, preset Dup; " +
 			"random SUBSCRIBE/UNSUBSCRIBE lists of 1-8 entries; every write attempt is decoded by an independent strict MQTT 3.1.1 decoder and compared field by field. Inbound: reference-encoded PUBLISH at all boundaries/flags with read chunking -> Message given to the handler. " +
-			"Rejection: QoS>2 / payload over MaxPayloadLen on BaseClient and RetryClient -> error and no write. Non-trivial: distinct lengths / option sets / requests actually round-tripped.",
+			"Faulty reconnecting runs: every packet written (retransmissions, PUBREL, acknowledgements of inbound traffic, re-subscriptions, DISCONNECT) decodes strictly and the stream always frames. Rejection: QoS>2 / payload over MaxPayloadLen on BaseClient and RetryClient -> error and no write. Non-trivial: distinct lengths / option sets / requests actually round-tripped.",
 		Assumptions: []string{"requests MQTT 3.1.1 can express: valid UTF-8 without U+0000 (topics), strings <= 65535 bytes, non-empty filter lists, subscription QoS <= 2, password only with a user name",
 			"len(payload)==MaxPayloadLen is also rejected by the library; the property speaks of payloads over the maximum, so it is not asserted either way",
 			"ProtocolLevel 3 is sent with protocol name MQTT; accepted by the reference decoder"},
